@@ -185,6 +185,15 @@ let mk (p : 'a prog) (f : 'a -> string) : cop =
 let unit_s () = ""
 let style_s st = "." ^ str_style st
 
+let plain_cop_of_str (s : string) : Model.cop = match String.split_on_char '.' s with
+  | ["CFG"; a; t] -> CopConfigure (num a, sign_types.(int_of_string t))
+  | ["CIN"; a; t] -> CopConfigureIfNeeded (num a, sign_types.(int_of_string t))
+  | "SND" :: a :: r -> CopSendPages (num a, pages_of_str (String.concat "." r))
+  | ["SHW"; a; fuel] -> CopShow (nat_of_int (int_of_string fuel), num a)
+  | ["LNX"; a; fuel] -> CopLoadNext (nat_of_int (int_of_string fuel), num a)
+  | ["BYE"; a] -> CopShutDown (num a)
+  | _ -> failwith ("bad nested cop " ^ s)
+
 (* op token: CFG.a.t  CIN.a.t  SND.a.pages  SHW.a.fuel  LNX.a.fuel  BYE.a *)
 let cop_of_str (s : string) : cop =
   match String.split_on_char '.' s with
@@ -193,6 +202,18 @@ let cop_of_str (s : string) : cop =
   | ("SND" | "SNP" | "SNW" | "SNL" | "SNQ" | "SNF") :: a :: rest ->
     (* SNP / SNW: the same pages from an iterator that looks at the shared bus / that takes its time: the same call *)
     mk (send_pages (num a) (pages_of_str (String.concat "." rest))) style_s
+  | "SNN" :: a :: nested :: rest ->
+    (* SNN.a.<per-page calls>.<pages>: the iterator makes the given calls on the same bus before it yields each page:
+       Model.send_pages_with.  Calls for page i: the i-th '~' field, calls separated by '/', written with ':' for '.' *)
+    let pages = pages_of_str (String.concat "." rest) in
+    let pre = List.map (fun f -> if f = "-" then [] else
+                           List.map (fun c -> plain_cop_of_str (String.concat "." (String.split_on_char ':' c)))
+                             (String.split_on_char '/' f)) (String.split_on_char '~' nested) in
+    let rec zip ps cs = match ps, cs with
+      | [], _ -> []
+      | p :: ps', [] -> ([], p) :: zip ps' []
+      | p :: ps', c :: cs' -> (c, p) :: zip ps' cs' in
+    mk (send_pages_with (num a) (zip pages pre)) style_s
   | ["SHW"; a; fuel] -> mk (show_loaded_page (nat_of_int (int_of_string fuel)) (num a)) unit_s
   | ["LNX"; a; fuel] -> mk (load_next_page (nat_of_int (int_of_string fuel)) (num a)) unit_s
   | ["BYE"; a] -> mk (shut_down (num a)) unit_s
